@@ -45,6 +45,7 @@ type Profile struct {
 	ManyRows                                                            bool
 	Big                                                                 int // rows of an extra large table (several response messages)
 	ExtraIDs                                                            []string
+	DeepColumn                                                          bool // now and then a column with 12+ versions
 }
 
 var Profiles = map[string]Profile{
@@ -53,7 +54,7 @@ var Profiles = map[string]Profile{
 	"c05":    {Name: "c05", Mutate: 6, MutateRows: 10, Read: 80, Rand: 4, Filters: 100, RowSets: 10, MinOps: 10, MaxOps: 40, ManyRows: true},
 	"c06":    {Name: "c06", Mutate: 30, MutateRows: 30, Cam: 15, Rmw: 15, Read: 5, ReadAfterWrite: true, Invalid: 45, MinOps: 4, MaxOps: 25},
 	"c12":    {Name: "c12", Mutate: 15, MutateRows: 5, Cam: 60, Read: 5, Rand: 3, Clock: 3, ReadAfterWrite: true, Invalid: 15, MinOps: 4, MaxOps: 30},
-	"c13":    {Name: "c13", Mutate: 20, Rmw: 60, Read: 5, Clock: 10, ReadAfterWrite: true, Invalid: 5, MinOps: 4, MaxOps: 30},
+	"c13":    {Name: "c13", DeepColumn: true, Mutate: 20, Rmw: 60, Read: 5, Clock: 10, ReadAfterWrite: true, Invalid: 5, MinOps: 4, MaxOps: 30},
 	"c14":    {Name: "c14", Mutate: 15, MutateRows: 10, Modify: 20, DropRange: 15, Create: 10, Delete: 8, List: 6, Get: 8, Read: 8, Keys: 3, ReadAfterWrite: true, Invalid: 5, MinOps: 6, MaxOps: 40, GcRules: true},
 	"c16":    {Name: "c16", Mutate: 25, MutateRows: 15, Gc: 25, Clock: 15, Modify: 8, Read: 5, Keys: 4, ReadAfterWrite: true, MinOps: 6, MaxOps: 40, GcRules: true},
 	// the background loop's pass and the quiescence it waits for: time passes, requests come, the pass is tried
@@ -473,6 +474,17 @@ func (g *Gen) Program() []core.Op {
 	if g.P.ManyRows {
 		g.fillRows(&prog, g.tables[0])
 	}
+	if g.P.DeepColumn && g.R.Chance(1, 2) {
+		// a column with a long history (more versions than any small-slice fast path handles), counters in it
+		var ms []Mut
+		nv := 12 + g.R.Intn(12)
+		for v := 1; v <= nv; v++ {
+			ms = append(ms, Mut{Kind: "set", Fam: "f", Qual: []byte("a"), TS: int64(v) * 1000, Val: i64(int64(v))})
+		}
+		prog = append(prog, &Op{Kind: "mutate", Name: g.tables[0], Key: []byte("a"), Muts: ms})
+		// the clock at (or before) the newest version: the next writes land on its timestamp
+		prog = append(prog, &Op{Kind: "clock", N: int64(nv) * 1000})
+	}
 	big := ""
 	if g.P.Big > 0 {
 		g.setupTable(&prog, "p", "big")
@@ -593,6 +605,14 @@ func (g *Gen) Program() []core.Op {
 			write = false
 		case 6:
 			o := &Op{Kind: "modify", Name: t}
+			if g.R.Chance(1, 8) {
+				// all or nothing, however a modification that does nothing is spelled: an effective modification,
+				// then `drop: false` for a family, then an attempt to create that (existing) family — refused as a whole
+				first := core.Pick(g.R, []FamMod{{Kind: "drop", ID: "g"}, {Kind: "create", ID: "h", Rule: g.Rule(1)}, {Kind: "update", ID: "f", Rule: g.Rule(1)}})
+				o.Mods = []FamMod{first, {Kind: core.Pick(g.R, []string{"nodrop", "noop"}), ID: "f"}, {Kind: "create", ID: "f", Rule: g.Rule(1)}}
+				prog = append(prog, o)
+				break
+			}
 			nm := 1 + g.R.Intn(3)
 			for j := 0; j < nm; j++ {
 				id := core.Pick(g.R, []string{"f", "g", "h", "k"})
@@ -604,7 +624,7 @@ func (g *Gen) Program() []core.Op {
 				case 2:
 					o.Mods = append(o.Mods, FamMod{Kind: "drop", ID: id})
 				default:
-					o.Mods = append(o.Mods, FamMod{Kind: "noop", ID: id})
+					o.Mods = append(o.Mods, FamMod{Kind: core.Pick(g.R, []string{"noop", "nodrop"}), ID: id})
 				}
 			}
 			prog = append(prog, o)
